@@ -103,6 +103,18 @@ def kge (eps : α) (o s : List α) : Option α :=
 def corrPearson (eps : α) (o s : List α) : Option α :=
   if absG (std o) < eps then none else some (pearson o s)
 
+/-- average (mid) rank, 1-based, of `x` within `l` (scipy `rankdata`, method "average"):
+number of smaller values + (number of tied values + 1)/2 -/
+def avgRank (l : List α) (x : α) : α :=
+  ((l.filter fun y => decide (y < x)).length : α)
+    + (((l.filter fun y => !decide (y < x) && !decide (x < y)).length : α) + 1) / (1 + 1)
+
+def ranks (l : List α) : List α := l.map (avgRank l)
+
+/-- `corr(type="Spearman")`: Pearson correlation of the mid-ranks (`scipy.stats.spearmanr`) -/
+def corrSpearman (eps : α) (o s : List α) : Option α :=
+  if absG (std o) < eps then none else some (pearson (ranks o) (ranks s))
+
 end transc
 
 /-! ### confusion matrix -/
